@@ -64,25 +64,83 @@ def resolve_model(ops):
                 # does not leave the directory after all: an ordinary in-directory link
                 e = {"p": p, "t": "l", "to": nrm, "sp": "raw", "raw": e["to"]}
         model[p] = e
-    # link targets must not be links themselves (the code resolves chains; out of model)
-    for p, e in list(model.items()):
-        if e["t"] == "l":
-            t = e["to"].strip("/")
-            if t in model and model[t]["t"] in ("l", "x"):
-                del model[p]
-            elif t == p or t.startswith(p + "/"):
-                del model[p]
+    return model
+
+
+OUTSIDE = "<outside>"
+
+
+def link_text(e, base):
+    """The text stored in the symlink (as materialise() writes it)."""
+    if e["t"] == "x":
+        return e["to"].replace("/@SIBLING@", base + "_old")
+    if e.get("sp") == "raw":
+        return e["raw"]
+    return spell(base, e["p"], e["to"].strip("/"), e.get("sp", "rel"))
+
+
+def model_realpath(model, start, text, base, hops=None):
+    """os.path.realpath(join(base/start, text)) evaluated on the model.
+    Returns the resolved path relative to base (list of segments), OUTSIDE, or None when the
+    model cannot tell (loop, leaves the directory midway)."""
+    hops = hops if hops is not None else [0]
+    if text.startswith("/"):
+        if text == base or text.startswith(base + "/"):
+            cur, rest = [], [c for c in text[len(base):].split("/")]
+        else:
+            return OUTSIDE
+    else:
+        cur, rest = list(start), text.split("/")
+    while rest:
+        c = rest.pop(0)
+        if c in ("", "."):
+            continue
+        if c == "..":
+            if not cur:
+                return None  # above the directory: may or may not come back - out of model
+            cur.pop()
+            continue
+        cand = cur + [c]
+        e = model.get("/".join(cand))
+        if e is not None and e["t"] in ("l", "x"):
+            hops[0] += 1
+            if hops[0] > 30:
+                return None
+            t = link_text(e, base)
+            if t.startswith("/"):
+                if t == base or t.startswith(base + "/"):
+                    cur, rest = [], t[len(base):].split("/") + rest
+                else:
+                    return OUTSIDE if not rest or True else None
             else:
-                # a link through another link (component) is out of model as well
-                segs = t.split("/")
-                if any("/".join(segs[:i]) in model and model["/".join(segs[:i])]["t"] in ("l", "x") for i in range(1, len(segs))):
-                    del model[p]
+                rest = t.split("/") + rest
+            continue
+        cur = cand
+    return cur
+
+
+def resolve_links(model, base):
+    """Annotate link entries with their fully resolved target; drop what the model cannot
+    predict (loops, detours above the directory)."""
+    changed = True
+    while changed:
+        changed = False
+        for p in sorted(model):
+            e = model[p]
+            if e["t"] not in ("l", "x"):
+                continue
+            r = model_realpath(model, p.split("/")[:-1], link_text(e, base), base)
+            if r is None or (e["t"] == "x" and r != OUTSIDE and False):
+                del model[p]
+                changed = True
+                break
+            e["resolved"] = r
     return model
 
 
 def expected_tree(model, alg="sha256"):
     """What the statement promises; returns ('raise',) if a link leaves the directory."""
-    if any(e["t"] == "x" for e in model.values()):
+    if any(e["t"] in ("l", "x") and e.get("resolved") == OUTSIDE for e in model.values()):
         return ("raise",)
     tree = {}
     for p in sorted(model):
@@ -95,8 +153,9 @@ def expected_tree(model, alg="sha256"):
             cur.setdefault(segs[-1], {})
         elif e["t"] == "f":
             cur[segs[-1]] = f"{alg}:" + hashlib.new(alg, content(e)).hexdigest()
-        elif e["t"] == "l":
-            cur[segs[-1]] = "symlink:" + e["to"].strip("/")
+        elif e["t"] in ("l", "x"):
+            r = e.get("resolved")
+            cur[segs[-1]] = "symlink:" + ("/".join(r) if r else ".")
     return ("tree", tree)
 
 
@@ -235,6 +294,7 @@ class DirscanEngine:
         ops = []
         dirs = [""]
         files = []
+        links = []
         for _ in range(n):
             d = g.choice(dirs)
             name = g.choice(NAMES) + (str(g.randrange(4)) if g.random() < 0.5 else "")
@@ -248,13 +308,18 @@ class DirscanEngine:
                 dirs.append(p)
             elif roll < 0.95:
                 tr = g.random()
-                if tr < 0.55 and files:
+                if tr < 0.15 and links:
+                    # through or onto another link (chains, '<link to dir>/..' detours)
+                    l0 = g.choice(links)
+                    to = g.choice([l0, l0 + "/" + g.choice(NAMES), l0 + "/../" + g.choice(NAMES), l0 + "/.."]).strip("/")
+                elif tr < 0.55 and files:
                     to = g.choice(files)
                 elif tr < 0.8 and len(dirs) > 1:
                     to = g.choice(dirs[1:])
                 else:
                     to = (g.choice(dirs) + "/missing" + str(g.randrange(3))).strip("/")
                 e = {"p": p, "t": "l", "to": to, "sp": g.choice(["rel", "dotdot", "abs", "dot"])}
+                links.append(p)
             else:
                 up = "../" * (p.count("/") + 1)
                 e = {"p": p, "t": "x", "to": g.choice(["/etc/hostname", "/etc", "../outside_file", "/nonexistent/zz", up + "root_old/secret", up + "root2", "/@SIBLING@/secret", up + "rootx/missing"])}
@@ -299,11 +364,16 @@ class DirscanEngine:
         stats, probes, viol = {}, {}, []
         opsA = case["ops"]
         opsB = apply_edit(opsA, cfg.get("edit"))
-        mA, mB = resolve_model(opsA), resolve_model(opsB)
+        bases = [os.path.join(scratch, f"tree{which}", "root") for which in (0, 1)]
+        mA = resolve_links(resolve_model(opsA), bases[0])
+        mB = resolve_links(resolve_model(opsB), bases[1])
         eA, eB = expected_tree(mA, cfg.get("alg", "sha256")), expected_tree(mB, cfg.get("alg", "sha256"))
+        chains = sum(1 for e in mA.values() if e["t"] == "l" and e.get("resolved") not in (None, OUTSIDE) and "/".join(e["resolved"]) != e["to"].strip("/"))
+        if chains:
+            probes["links_resolved_through_other_links"] = chains
         results = []
         for which, (m, exp) in enumerate(((mA, eA), (mB, eB))):
-            base = os.path.join(scratch, f"tree{which}", "root")
+            base = bases[which]
             materialise(m, base, cfg["order"][which], cfg["times"][which])
             stats["mtime_skew"] = stats.get("mtime_skew", 0) + 1
             got = self.scan(base, cfg, stats, which)
@@ -327,8 +397,9 @@ class DirscanEngine:
         if not viol and cfg.get("inplace") and eB[0] == "tree" and results[0][0] == "tree":
             # the same directory is edited in place and scanned again (packer update):
             # where content changes keep the size, the old timestamps are restored
-            base = os.path.join(scratch, "tree0", "root")
-            n_same = self.edit_in_place(base, mA, mB, cfg)
+            base = bases[0]
+            mB0 = resolve_links(resolve_model(opsB), base)
+            n_same = self.edit_in_place(base, mA, mB0, cfg)
             stats["inplace_rescan"] = stats.get("inplace_rescan", 0) + 1
             stats["inplace_same_size_and_mtime"] = stats.get("inplace_same_size_and_mtime", 0) + n_same
             got = self.scan(base, cfg, stats, 2)
